@@ -53,3 +53,11 @@ func VerifIsCompacting(f Family) bool {
 	}
 	return false
 }
+
+// VerifCacheCleanup evicts the expired, unreferenced table readers of the store's reader cache
+// (what the periodic store check does after its compaction / rollup pass).
+func VerifCacheCleanup(s Store) {
+	if st, ok := s.(*store); ok {
+		st.cache.Cleanup()
+	}
+}
